@@ -418,6 +418,9 @@ impl<'a> Sim<'a> {
                 if n >= 65536 && prior != "in-block" {
                     tg |= tags::DIRECT;
                 }
+                // poison what may legitimately be filled: a count without the bytes must not pass by
+                // leftovers of an earlier history (0xa5 is not a payload byte)
+                scratch[..want_max].fill(0xa5);
                 match self.rd.read(&mut scratch[..n]) {
                     Err(e) => {
                         return Err(Fail {
@@ -473,6 +476,9 @@ impl<'a> Sim<'a> {
                     "reader={rk} op=read_exact buf={bufc} fits={} tail={tail}",
                     if fits { "yes" } else { "no" }
                 );
+                if fits {
+                    scratch[..n].fill(0xa5);
+                }
                 let r = self.rd.read_exact(&mut scratch[..n]);
                 match (r, fits) {
                     (Ok(()), true) => {
